@@ -14,7 +14,8 @@ Open Scope N_scope.
 (* a number with a fraction or an exponent is the only text on which a 128-bit integer request stops early *)
 Definition int_only (c : cst) : Prop :=
   match c with CNum n => nfrac n = None /\ nexp n = None | _ => True end.
-Definition Stuck0 (c : cst) (r : bytes) : Prop := ~ int_only c /\ exists b y, r = b :: y /\ bad3 b.
+Definition StuckR (r : bytes) : Prop := exists b y, r = b :: y /\ bad3 b.
+Definition Stuck0 (c : cst) (r : bytes) : Prop := ~ int_only c /\ StuckR r.
 
 Ltac head_contra Hh :=
   first [ discriminate Hh
@@ -144,11 +145,11 @@ Proof.
   - right. split; [unfold int_only; intros [K _]; congruence|].
     assert (Hne : nfrac n <> None \/ nexp n <> None) by (left; congruence).
     destruct (frac_exp_head n Hn Hne x) as (b & y & Hby & Hb).
-    rewrite Hf in Hby. rewrite G. eauto.
+    rewrite Hf in Hby. rewrite G. exists b, y. auto.
   - right. split; [unfold int_only; intros [_ K]; congruence|].
     assert (Hne : nfrac n <> None \/ nexp n <> None) by (right; congruence).
     destruct (frac_exp_head n Hn Hne x) as (b & y & Hby & Hb).
-    rewrite Hf, He in Hby. rewrite G. eauto.
+    rewrite Hf, He in Hby. rewrite G. exists b, y. auto.
   - left. rewrite G. reflexivity.
 Qed.
 
@@ -254,14 +255,15 @@ Proof. intros (wl & Hwl & ->) H. rewrite skipws_to in H by (try assumption; refl
 
 Lemma frame_seq_rest {A} (body : st -> tres (A * st)) s0 a s5 w es x :
   frame E end_seq end_seq_st body s0 = TOk (a, s5) -> rest s0 = 91 :: seq_text true w es ++ 93 :: x ->
-  (forall s' s3, rest s' = seq_text true w es ++ 93 :: x -> body s' = TOk (a, s3) -> SeqRem x (rest s3)) ->
+  (forall s' s3, rest s' = seq_text true w es ++ 93 :: x -> body s' = TOk (a, s3) -> SeqRem x (rest s3) \/ StuckR (rest s3)) ->
   rest s5 = x.
 Proof.
   intros H Hs0 Hbody. apply (frame_ok_inv cf) in H as (s2 & s3 & s4 & Hen & Hb & Hlv & Hend).
   assert (Hd2 : rest (discard s2) = seq_text true w es ++ 93 :: x).
   { rewrite discard_restE, (enter_restE cf _ _ Hen), Hs0. reflexivity. }
-  pose proof (Hbody _ _ Hd2 Hb) as Hrem.
-  apply end_seq_invE in Hend. rewrite (leave_restE cf _ _ Hlv) in Hend. exact (seq_rem_close x _ _ Hrem Hend).
+  destruct (Hbody _ _ Hd2 Hb) as [Hrem|(b & y & Hst & Hbad)].
+  - apply end_seq_invE in Hend. rewrite (leave_restE cf _ _ Hlv) in Hend. exact (seq_rem_close x _ _ Hrem Hend).
+  - exfalso. rewrite <- (leave_restE cf _ _ Hlv) in Hst. exact (stuck_end_seq cf b y s4 s5 Hbad Hst Hend).
 Qed.
 
 Lemma frame_map_rest {A} (body : st -> tres (A * st)) s0 a s5 w ms x :
@@ -283,7 +285,7 @@ Proof. rewrite render_obj. cbn [app]. rewrite <- app_assoc. reflexivity. Qed.
 
 Lemma seq_frame {A} (body : st -> tres (A * st)) s a s5 c x :
   deserialize_seq E body s = TOk (a, s5) -> skipws (rest s) = render c ++ x -> wfb c = true ->
-  (forall w es s' s3, c = CArr w es -> rest s' = seq_text true w es ++ 93 :: x -> body s' = TOk (a, s3) -> SeqRem x (rest s3)) ->
+  (forall w es s' s3, c = CArr w es -> rest s' = seq_text true w es ++ 93 :: x -> body s' = TOk (a, s3) -> SeqRem x (rest s3) \/ StuckR (rest s3)) ->
   rest s5 = x.
 Proof.
   unfold deserialize_seq. intros H Hr Hc Hbody. apply tbind_lift_ok in H as ([o s0] & Hpw & H).
@@ -311,7 +313,7 @@ Qed.
 
 Lemma struct_frame {A} (body_seq body_map : st -> tres (A * st)) s a s5 c x :
   deserialize_struct E body_seq body_map s = TOk (a, s5) -> skipws (rest s) = render c ++ x -> wfb c = true ->
-  (forall w es s' s3, c = CArr w es -> rest s' = seq_text true w es ++ 93 :: x -> body_seq s' = TOk (a, s3) -> SeqRem x (rest s3)) ->
+  (forall w es s' s3, c = CArr w es -> rest s' = seq_text true w es ++ 93 :: x -> body_seq s' = TOk (a, s3) -> SeqRem x (rest s3) \/ StuckR (rest s3)) ->
   (forall w ms s' s3, c = CObj w ms -> rest s' = map_text true w ms ++ 125 :: x -> body_map s' = TOk (a, s3) -> MapRem x (rest s3)) ->
   rest s5 = x.
 Proof.
@@ -372,7 +374,10 @@ Proof.
 Qed.
 
 Lemma numchars_rawok u : forallb numchar u = true -> forallb rawok u = true.
-Proof. apply forallb_impl. intros b Hb. now apply numchar_rawok. Qed.
+Proof.
+  induction u as [|b u IH]; [reflexivity|]. cbn [forallb]. intros H. apply andb_prop in H as [Hb Hu].
+  now rewrite (numchar_rawok b Hb), (IH Hu).
+Qed.
 
 (* a request that, started on a non-whitespace byte, reads a run of number characters *)
 Definition numeric_delegate (dl : st -> tres (dval * st)) : Prop :=
@@ -477,7 +482,7 @@ Proof.
   destruct (flat_map render_piece ps ++ 34 :: y) as [|b' r'] eqn:Hlit; [discriminate H2|]. injection H2 as ->.
   assert (Hbw : ws_byte b' = false) by (unfold ws_byte; unfold is_digit in Eb; lia).
   destruct (Hdl s0 b' r' d0 s2 H1 Hbw Hd) as (u & Hu & Hnum). rewrite H1, Hs2 in Hu.
-  exact (lit_unique u z ps y (numchars_rawok u Hnum) (eq_sym Hu) Hok).
+  apply (lit_unique u z ps y (numchars_rawok u Hnum)); [|exact Hok]. rewrite Hlit. symmetry. exact Hu.
 Qed.
 
 Lemma key_bool_rest s d s1 ps y :
@@ -499,3 +504,7 @@ Proof.
 Qed.
 
 End Leaves.
+
+Print Assumptions int_rest.
+Print Assumptions numeric_key_rest.
+Print Assumptions struct_frame.
